@@ -52,6 +52,51 @@ func hashElemOriginsR(v ssa.Value, res resolver) []string {
 	return uniqStrings(out)
 }
 
+// hashElemOriginsD: the origins of a hash expression that sits in the function of deep call d, named in the top function:
+// a parameter of a helper on the chain is followed to the argument at the call site.
+func hashElemOriginsD(d dcall, v ssa.Value) []string {
+	if len(d.chain) == 0 {
+		return hashElemOriginsR(v, d.res())
+	}
+	for i := 0; i < 6; i++ {
+		switch x := v.(type) {
+		case *ssa.Convert:
+			v = x.X
+			continue
+		case *ssa.Slice:
+			v = x.X
+			continue
+		case *ssa.ChangeType:
+			v = x.X
+			continue
+		}
+		break
+	}
+	var vals []ssa.Value
+	if a, ok := v.(*ssa.Alloc); ok {
+		for _, r := range *a.Referrers() {
+			if st, ok := r.(*ssa.Store); ok && st.Addr == ssa.Value(a) {
+				vals = append(vals, st.Val)
+			}
+		}
+	} else {
+		vals = []ssa.Value{v}
+	}
+	var out []string
+	for _, x := range vals {
+		for _, o := range origins(x) {
+			if prm, isPrm := o.(*ssa.Parameter); isPrm {
+				if av := d.argValue(prm); av != ssa.Value(prm) {
+					out = append(out, hashElemOriginsR(av, idRes)...)
+					continue
+				}
+			}
+			out = append(out, d.res()(o))
+		}
+	}
+	return uniqStrings(out)
+}
+
 func init() {
 	register("C09", []string{"./accountant"},
 		"Structural necessary conditions of a well-formed ledger graph: every vertex is inserted under its own hash; every edge runs from a vertex fetched by (or equal to) a declared parent hash of the new vertex to the vertex just inserted; "+
@@ -59,7 +104,7 @@ func init() {
 			"a locally created vertex gets calcNewWeight of the same two parents it references and NewVertex returns only a signed value whose hash and signature come from signer.Sign(initData()). "+
 			"Acyclicity (heimdalr's AddEdge loop check), the arithmetic in calcNewWeight and the state after truncation are not decided.",
 		runC09)
-	register("C10", []string{"./accountant", "./gossip", "./notaryserver"},
+	register("C10", []string{"./accountant", "./gossip", "./notaryserver", "./wallet"},
 		"Structural necessary conditions of the sealing rules: on every entry point the insertion (or the hand-over to the admission path) lies behind the rejecting edge of each rule's comparison, with operands bound by access path "+
 			"(issuer vs. sealing node, issuer vs. genesis wallet, empty transaction, genesis receiver vs. issuer, DAG loaded), the loaded flag of a synced ledger is unreachable after any cancel, and the admission path has no other callers — "+
 			"so everything replayed from the orphan buffer went through the same guards.",
@@ -136,8 +181,38 @@ func runC09(w *World, r *Report) {
 						if ia, ok := ld.X.(*ssa.IndexAddr); ok {
 							for _, ap := range appendsFeeding(ed.argValue(ia.X)) {
 								for _, y := range sliceLitElems(ap.Call.Args[1]) {
+									// the lookup may sit in a helper that hands the vertex it found back to the appending loop
+									type lookup struct {
+										o     ssa.Value
+										chain []ssa.CallInstruction
+									}
+									var los []lookup
 									for _, o := range origins(y) {
-										ex, ok := o.(*ssa.Extract)
+										if ex, isEx := o.(*ssa.Extract); isEx {
+											if hc, isCall := ex.Tuple.(*ssa.Call); isCall {
+												if h := samePkgHelper(ap.Parent(), hc); h != nil {
+													for _, ret := range returnsOf(h) {
+														if !successReturn(ret) {
+															continue
+														}
+														vals, zero := resultVals(ret, ex.Index)
+														if zero {
+															continue
+														}
+														for _, rv := range vals {
+															for _, o2 := range origins(rv) {
+																los = append(los, lookup{o2, []ssa.CallInstruction{hc}})
+															}
+														}
+													}
+													continue
+												}
+											}
+										}
+										los = append(los, lookup{o, nil})
+									}
+									for _, lo := range los {
+										ex, ok := lo.o.(*ssa.Extract)
 										if !ok {
 											why = "appended vertex is not a DAG lookup result"
 											continue
@@ -148,7 +223,7 @@ func runC09(w *World, r *Report) {
 											continue
 										}
 										_, ga := callArgs(gc)
-										ps := hashElemOrigins(ga[0])
+										ps := hashElemOriginsD(dcall{c: gc, chain: lo.chain}, ga[0])
 										want := []string{v + ".LeftParentHash", v + ".RightParentHash"}
 										if strings.Join(ps, ",") == strings.Join(want, ",") {
 											srcOK = true
@@ -537,6 +612,8 @@ func genesisReceiverUsed(fn *ssa.Function) func(ssa.Value) bool {
 
 func runC10(w *World, r *Report) {
 	r.NotDecided = []string{"that the configured genesis wallet never signs (deployment)", "ledgers imported by means other than the three entry points"}
+	// the sealing guards compare address strings: one wallet must have one address
+	oneAddressPerKey(w, r, "one-address-per-key")
 	handedOverVertexIsFresh(w, r, "handed-over-vertex-is-fresh")
 	// "neither data nor spice" is decided from Data and Spice alone: the guards of all three entries call IsEmpty, so a
 	// predicate that also looks at another field changes what every guard lets through
@@ -936,7 +1013,7 @@ func runC13(w *World, r *Report) {
 	for _, gd := range deepCalls(fn, byName(nGetVertex), deepDepth) {
 		g := gd.c
 		_, ga := callArgs(g)
-		if strings.Join(hashElemOriginsR(ga[0], gd.res()), ",") != v+".LeftParentHash,"+v+".RightParentHash" {
+		if strings.Join(hashElemOriginsD(gd, ga[0]), ",") != v+".LeftParentHash,"+v+".RightParentHash" {
 			continue
 		}
 		gFrame := frameFor(fn, gd.chain)
@@ -1725,6 +1802,41 @@ func runC14(w *World, r *Report) {
 		r.check(nLock > 0 && early == "", "stream-is-one-snapshot", "StreamDAG/lock-kept", w.Pos(sd.fn.Pos()), "the ledger lock is held from the listing of the tips to the end of the stream", fmt.Sprintf("locks taken: %d;%s", nLock, early))
 	}
 
+	// what is streamed is read from the graph under the ledger lock of this very call
+	r.rule("every-streamed-vertex-is-sent-under-the-ledger-lock", "in StreamDAG (its goroutine and helpers) every send of a vertex on the stream channel happens with AccountingBook.mux held: a vertex sent from anywhere else (a recorded earlier walk, a cache) is not part of the snapshot the lock protects", 1)
+	if sd := w.fx(r, "accountant", "AccountingBook", "StreamDAG"); sd != nil {
+		li14 := ComputeLocks(w, acctScope)
+		nSend := 0
+		for _, g := range withHelpers(sd.fn, 2) {
+			for _, g2 := range WithAnon(g) {
+				instrsOf(g2, func(in ssa.Instruction) {
+					isVertexChan := func(ch ssa.Value) bool {
+						ct, ok := ch.Type().Underlying().(*types.Chan)
+						return ok && strings.HasSuffix(ct.Elem().String(), "accountant.Vertex")
+					}
+					sends := false
+					switch x := in.(type) {
+					case *ssa.Send:
+						sends = isVertexChan(x.Chan)
+					case *ssa.Select:
+						for _, st := range x.States {
+							if st.Dir == types.SendOnly && isVertexChan(st.Chan) {
+								sends = true
+							}
+						}
+					}
+					if !sends {
+						return
+					}
+					nSend++
+					held := li14.At(in)
+					r.check(held.Has(abMux, "R") || held.Has(abMux, "W"), "every-streamed-vertex-is-sent-under-the-ledger-lock", fmt.Sprintf("%s/send#%d", shortFn(sd.fn), nSend), lineOf(w, in),
+						"the vertex is sent while the ledger lock is held", "lockset "+held.String()+": this send is outside the locked walk of the graph")
+				})
+			}
+		}
+	}
+
 	// transport: a stream that broke is not mistaken for one that ended
 	r.rule("transport-reports-failure", "serving handler: the error of stream.Send can reach the handler's result; loading client: the errors of stream.Recv and of the vertex mapping can reach updateDag's result (a broken stream is not reported as a clean end)", 2)
 	transport := []struct{ fn, callee, what string }{
@@ -2385,12 +2497,32 @@ func parentsExist(w *World, r *Report, rule string) {
 				g := gd.c
 				gfn := g.Parent()
 				_, ga := callArgs(g)
-				ps := hashElemOriginsR(ga[0], gd.res())
+				ps := hashElemOriginsD(gd, ga[0])
 				if strings.Join(ps, ",") != v+".LeftParentHash,"+v+".RightParentHash" {
 					continue
 				}
 				found = true
-				h := enclosingRangeHeader(g.Block())
+				// the lookup may sit in a helper that is called once per parent: the loop is the one around the call
+				// that leads to it, the found-edges are the success edges of that call (ensures-summary of the helper)
+				var site ssa.Instruction = g.(ssa.Instruction)
+				foundEdges := passErrNil(g)
+				if len(gd.chain) > 0 {
+					site = gd.chain[0].(ssa.Instruction)
+					spec := func(fn2 *ssa.Function, _ resolver) []Edge {
+						var es []Edge
+						for _, c := range callsTo(fn2, nGetVertex) {
+							if c == g {
+								if guardCallSink != nil {
+									*guardCallSink = append(*guardCallSink, guardHit{c, "errnil"})
+								}
+								es = append(es, passErrNil(c)...)
+							}
+						}
+						return es
+					}
+					foundEdges = deepEdges(fn, idRes, spec, deepDepth)
+				}
+				h := enclosingRangeHeader(site.Block())
 				if h == nil {
 					r.bad(rule, "addLeafMemorized/loop", lineOf(w, g), "parent lookup must be inside the loop over both parent hashes", "no enclosing range loop")
 					continue
@@ -2410,9 +2542,9 @@ func parentsExist(w *World, r *Report, rule string) {
 					r.undecided(rule, "addLeafMemorized/loop-shape", lineOf(w, g), "range loop header must branch to body/done", "unexpected shape")
 					continue
 				}
-				okIter := !reachable([]*ssa.BasicBlock{bodyE.To()}, edgeSet(passErrNil(g), []Edge{*doneE}))[h]
+				okIter := !reachable([]*ssa.BasicBlock{bodyE.To()}, edgeSet(foundEdges, []Edge{*doneE}))[h]
 				_ = gfn
-				r.check(okIter && len(passErrNil(g)) > 0, rule, "addLeafMemorized/every-iteration", lineOf(w, g), "no way back to the loop header (next parent) without the found-edge of GetVertex", "an iteration can continue without having found its parent")
+				r.check(okIter && len(foundEdges) > 0, rule, "addLeafMemorized/every-iteration", lineOf(w, g), "no way back to the loop header (next parent) without the found-edge of GetVertex", "an iteration can continue without having found its parent")
 				// with the loop's normal exit cut, the insertion must be unreachable (the loop may sit in a helper: its
 				// successful return is then behind that exit, and the walk is pruned by the return it came back through)
 				reached := false
